@@ -219,6 +219,10 @@ def f_shape_core() -> List[Case]:
     z_zoo = Message("ZooKeeper", [Field(TRef(z_monkey), "monkey", 1), Field(TRef(z_tail, "Monkey.Tail"), "spare_tail", 2), Field(TArray(TRef(z_tail, "Monkey.Tail"), 2), "more_tails", 3), Field(U(2), "gate", 4)], nested=[z_monkey])
     add("nested_decl3", [z_zoo], ("nest", "nested_decl"))
 
+    # an extensible message WITHOUT fields (a placeholder for later versions): alone, nested, as an array element
+    rsv = Message("Reserved", [], ext=True)
+    add("empty_ext", [rsv, Message("M", [Field(U(3), "h", 1), Field(TRef(rsv), "r", 2), Field(TArray(TRef(rsv), 2), "rs", 3), Field(U(6), "t", 4)])], ("ext", "empty"))
+
     # very long (valid) field and message names: nothing in the runtimes may depend on the length of a name
     long_inner = Message("TelemetryFrameWithAVeryLongDescriptiveName", [Field(U(7), "a_rather_long_field_name_of_forty_two_chars_", 1), Field(I(9), "x", 2)])
     add("long_names", [long_inner, Message("M", [Field(U(3), "brief", 1), Field(TRef(long_inner), "the_quick_brown_fox_jumps_over_the_lazy_dog_again_and_again", 2),
@@ -419,7 +423,17 @@ def f_naming() -> List[Case]:
     gps = Message("GPSFix", [Field(I(28), "lat", 1), Field(I(29), "lon", 2), Field(TRef(http), "server", 3)])
     rgb = Alias("RGBColor", TArray(U(8), 3))
     uid = _e("UserID", 4, [0, 3, 9])
-    p = Proto("acronyms", [rgb, uid, http, gps, Message("M", [Field(TRef(gps), "fix", 1), Field(TRef(rgb), "color", 2), Field(TRef(uid), "uid", 3)])])
+    p = Proto("acronyms", [Const("MAX_CAGES", "4", 4), Const("PORT_2G", "2 + 1", 3), rgb, uid, http, gps, Message("M", [Field(TRef(gps), "fix", 1), Field(TRef(rgb), "color", 2), Field(TRef(uid), "uid", 3)])])
+    out.append(case_of(p.name, p, ("names",)))
+    # digits inside PascalCase names (the word rule puts digit groups on their own)
+    mk = Message("Mk2Drone", [Field(U(9), "rpm", 1)])
+    fleet = Message("Fleet", [Field(TRef(mk), "lead", 1), Field(TArray(TRef(mk), 2), "wing", 2)], nested=[mk])
+    vec = Message("Vector3", [Field(I(12), "x", 1), Field(I(12), "y", 2), Field(I(12), "z", 3)])
+    ip = Message("Ipv4Header", [Field(U(4), "version", 1), Field(TRef(vec), "v", 2)])
+    strs = Proto("strings", [Const("QUOTED", '"say \\"hi\\" twice"', 'say "hi" twice'), Const("WIN_PATH", '"C:\\\\temp\\\\new"', "C:\\temp\\new"), Const("MULTI", '"a\\nb\\tc"', "a\nb\tc"),
+                              Const("PLAIN", '"plain ?? text"', "plain ?? text"), Message("M", [Field(U(3), "a", 1)])])
+    out.append(case_of(strs.name, strs, ("names", "strings")))
+    p = Proto("digits", [Const("LEVEL_3", "3", 3), vec, ip, fleet, Message("M", [Field(TRef(ip), "h", 1), Field(TRef(fleet), "f", 2)])])
     out.append(case_of(p.name, p, ("names",)))
     return out
 
